@@ -9,7 +9,7 @@
    internally, LOk y otherwise, y carrying the unit, what has been delivered to it, and the
    monitor's log: RAttempt k result slow time_taken unstopped / RDelay k delay unstopped running cut. *)
 From NextestModel Require Import Base.Str Model.Backoff Model.Clocks Model.UnitTimers Model.AbsTimers
-  Model.UnitLife Proofs.Timers Proofs.UnitProps Proofs.DelayProps Proofs.PauseCert Proofs.UnitLife
+  Model.UnitLife Proofs.Backoff Proofs.Timers Proofs.UnitProps Proofs.DelayProps Proofs.PauseCert Proofs.UnitLife
   Proofs.UnitLifeCert gen.GenPauseTable.
 From Coq Require Import MSets.MSetPositive.
 Open Scope N_scope.
@@ -42,6 +42,17 @@ Theorem UnitLife_delay_not_sooner :
     dl <= run /\ (y_bad y = false -> dl <= un).
 Proof. exact pt_delay_not_sooner. Qed.
 Print Assumptions UnitLife_delay_not_sooner.
+
+(* ... where "the configured delay" is what it should be: the delay waited after attempt k is the
+   k-th delay of the retry policy (Backoff.delays), jittered with that attempt's draw; without
+   jitter it is the documented closed form (fixed: the delay; exponential: delay * 2^(k-1), capped). *)
+Theorem UnitLife_delay_is_configured :
+  forall unicast c es y, lsys_run unicast pause_table c (lsys0 c) es = LOk y ->
+  forall k dl un run cut, In (RDelay k dl un run cut) (y_log y) ->
+    dl = delay_formula c k /\ 1 <= k <= p_count (lc_policy c) /\
+    (p_jitter (lc_policy c) = false -> dl = delay_spec (lc_policy c) (N.to_nat (k - 1))).
+Proof. exact pt_delay_is_configured. Qed.
+Print Assumptions UnitLife_delay_is_configured.
 
 (* ... and a delay cut short by a Shutdown or OtherCancel is never followed by another attempt. *)
 Theorem UnitLife_cut_short_no_retry :
